@@ -114,7 +114,13 @@ func equalValue(x, y reflect.Value) bool {
 		iter := x.MapRange()
 		for iter.Next() {
 			vx := iter.Value()
-			vy := y.MapIndex(iter.Key())
+			k := iter.Key()
+			// The two maps may have different string key types (string vs. type K string):
+			// MapIndex requires a key assignable to y's key type.
+			if kt := y.Type().Key(); kt != k.Type() && kt.Kind() == reflect.String && k.Kind() == reflect.String {
+				k = k.Convert(kt)
+			}
+			vy := y.MapIndex(k)
 			if !vy.IsValid() || !equalValue(vx, vy) {
 				return false
 			}
